@@ -157,8 +157,16 @@ def accepted_units(blocks, acc):
     return out
 
 
-def classify(ctx, path, open_devs, name, counted=True):
-    """Returns (result: dict unit -> 'strict' | frozenset(deviation names) | None, blocks, stats)."""
+def families_of(ctx, fams):
+    """fams: list of (finding id, [deviation names]).  Only open findings of this property take part."""
+    of = ctx.open_findings()
+    return [(fid, devs) for fid, devs in fams if fid in of]
+
+
+def classify(ctx, path, fams, name):
+    """fams: list of (finding id, [deviation names]) - a finding may switch on several deviations of the spec
+    (one root cause seen through several spec switches).
+    Returns (result: dict unit -> 'strict' | frozenset(finding ids) | None, blocks, stats)."""
     blocks = split_trace(path)
     units = units_of(blocks)
     r, acc = validate(ctx, path, (), name + "-strict")
@@ -173,15 +181,18 @@ def classify(ctx, path, open_devs, name, counted=True):
     def hids(us):
         return sorted({u[1] for u in us})
 
-    tries = [frozenset([d]) for d in sorted(open_devs)]
-    if len(open_devs) > 1:
-        tries += [frozenset(p) for p in itertools.combinations(sorted(open_devs), 2)]
-    if len(open_devs) > 2:
-        tries.append(frozenset(open_devs))
-    for k, dev in enumerate(tries):
+    fmap = dict(fams)
+    ids = sorted(fmap)
+    tries = [frozenset([f]) for f in ids]
+    if len(ids) > 1:
+        tries += [frozenset(p) for p in itertools.combinations(ids, 2)]
+    if len(ids) > 2:
+        tries.append(frozenset(ids))
+    for k, fset in enumerate(tries):
         todo = pending()
         if not todo:
             break
+        dev = sorted({d for f in fset for d in fmap[f]})
         sub = {h: blocks[h] for h in hids(todo)}
         sp = os.path.join(ctx.work, "%s-rej-%d.ndjson" % (name, k))
         write_blocks(sp, sub)
@@ -190,7 +201,8 @@ def classify(ctx, path, open_devs, name, counted=True):
         for u in todo:
             # a cut is only explained if the main line of its history is explained by the same spec
             if u in ok2 and (u[0] == "h" or ("h", u[1]) in ok2 or res[("h", u[1])] == "strict"):
-                res[u] = dev
+                res[u] = fset
+        os.remove(sp)
     return res, blocks, stats
 
 
@@ -236,7 +248,8 @@ def report(ctx, res, blocks, hists, name, kind, mode_cfg, max_reports=6):
         else:
             n["known"] += 1
             for d in sorted(v):
-                what = "%s of history %s (level %s) is explained only by deviation %s" % (
-                    "crash cut %s" % (u[2:],) if u[0] == "c" else "the trace", hid, hist and hist.get("level"), d)
-                ctx.deviation(FID_OF[d], what, dict(kind="history", config=cfg1, history=hist, unit=list(u), lines=blocks[hid][:200]))
+                what = "%s of history %s (level %s%s) is explained only by the as-built deviation of %s" % (
+                    "crash cut %s" % (u[2:],) if u[0] == "c" else "the trace", hid, hist and hist.get("level"),
+                    (", faults %s" % json.dumps(hist.get("faults"))) if hist and hist.get("faults") else "", d)
+                ctx.deviation(d, what, dict(kind="history", config=cfg1, history=hist, unit=list(u), lines=blocks[hid][:200]))
     return n
